@@ -1132,5 +1132,64 @@ func ruleLineStateAgreement(w *World, r *Report) {
 			}
 		}
 	}
-	r.Expect("per-line fields checked", n, 8)
+	// the other direction, for the position itself: AdvanceLine moves to a fresh line, so it must assign every component
+	// of the position value that SetPosition assigns as a whole (start, stop, padding …)
+	for _, t := range w.readerTypes() {
+		al := w.DeclaredMethod(t, "AdvanceLine")
+		sp := w.DeclaredMethod(t, "SetPosition")
+		pos := w.DeclaredMethod(t, "Position")
+		if al == nil || sp == nil || pos == nil {
+			continue
+		}
+		// the position field: the struct-typed field Position returns
+		var posPath []int
+		for _, b := range pos.Blocks {
+			if rt, ok := b.Instrs[len(b.Instrs)-1].(*ssa.Return); ok && len(rt.Results) == 2 {
+				if u, ok := rt.Results[1].(*ssa.UnOp); ok {
+					if root, p, ok := addrFieldPath(u.X); ok && rootIsType(root, t) {
+						posPath = p
+					}
+				}
+			}
+		}
+		if posPath == nil {
+			continue
+		}
+		a := map[string][]int{}
+		w.storedFields(al, t, map[*ssa.Function]bool{}, a)
+		// sub-fields of the position struct
+		var cur types.Type = t
+		for _, i := range posPath {
+			st, ok := deref(cur).Underlying().(*types.Struct)
+			if !ok {
+				break
+			}
+			cur = st.Field(i).Type()
+		}
+		st, ok := cur.Underlying().(*types.Struct)
+		if !ok {
+			continue
+		}
+		for fi := 0; fi < st.NumFields(); fi++ {
+			if !isInteger(st.Field(fi).Type()) {
+				continue
+			}
+			n++
+			sub := append(append([]int{}, posPath...), fi)
+			name := fieldPathName(t, sub)
+			key := fmt.Sprintf("(*%s).AdvanceLine assigns %s", t.Obj().Name(), name)
+			covered := false
+			for _, q := range a {
+				if len(q) <= len(sub) && pathOverlaps(q, sub) {
+					covered = true
+				}
+			}
+			if covered {
+				r.OK(key, w.FnPos(al), "assigned when moving to the next line")
+			} else {
+				r.Bad(key, w.FnPos(al), fmt.Sprintf("AdvanceLine moves to a new line without assigning %s: the value of the previous line (e.g. left-over virtual padding) leaks into the next line", name))
+			}
+		}
+	}
+	r.Expect("per-line fields checked", n, 12)
 }
